@@ -11,6 +11,7 @@
 
 #include "celma/common/fixed_string.hpp"
 
+#include <cwchar>
 #include <cstdarg>
 #include <memory>
 #include <sstream>
@@ -680,6 +681,7 @@ bool Exec<L, MODEL>::step(const Op &op, const OpInfo &info) {
         case 1: fs->sprintf(fmt, iv); break;
         case 2: fs->sprintf(fmt, hc.p, iv); break;
         case 3: fs->sprintf(fmt, iv, hc.p); break;
+        case 7: fs->sprintf(fmt, static_cast<wint_t>(0x20AC)); break;
         default: fs->sprintf(fmt, iv, cv); break;
       }
       nul = false;
@@ -690,10 +692,12 @@ bool Exec<L, MODEL>::step(const Op &op, const OpInfo &info) {
             case 1: return snprintf(buf, n, fmt, iv);
             case 2: return snprintf(buf, n, fmt, hc.p, iv);
             case 3: return snprintf(buf, n, fmt, iv, hc.p);
+            case 7: return -1;   // the conversion fails
             default: return snprintf(buf, n, fmt, iv, cv);
           }
         };
         int need = render(nullptr, 0);
+        if (need < 0) { m.assign(fs->c_str(), std::min<size_t>(fs->length(), L)); break; }   // no std::string counterpart: only the invariants are judged
         std::string full(static_cast<size_t>(need) + 1, '\0');
         render(&full[0], full.size());
         full.resize(static_cast<size_t>(need));
